@@ -62,7 +62,7 @@ Proof. exact block_scoping. Qed.
 Print Assumptions C02_block_scoping.
 
 Theorem C02_closure_captures_by_value : forall mods n c e f clo v,
-  lookup f e = Some clo ->
+  lookup_var f e = Some clo ->
   eval_term mods (S (S n)) c e (Access (mkAccess (Some (Identifier f)) [])) v =
   with_env e (tick st0 (if is_callable clo then call mods n clo (tail_arg clo v) st0 else ret clo)).
 Proof. exact closure_captures_by_value. Qed.
